@@ -236,6 +236,9 @@ def parse_ip_prefix(tokeninser: str) -> tuple[IPv4 | IPv6, int]:
         ip = IPv6.unpack_ipv6(IPv6.pton(addrstr))
     else:
         raise ValueError(f"unexpect ipaddress format '{addrstr}'")
+    if int(length) > addr.max_prefixlen:
+        # 10.0.1.0/33 was accepted and sent: the peer answers with a NOTIFICATION
+        raise ValueError(f"prefix length of '{tokeninser}' is more than the {addr.max_prefixlen} bits of the address")
     return ip, int(length)
 
 
